@@ -6,6 +6,10 @@
 #include "vsym.h"
 using namespace muscle;
 
+// helpers for the model of String::IsCharInLocalArray (models/string.def): that method orders two pointers, which for pointers into different objects makes CBMC reason about
+// the numeric placement of objects (the solver does not return); the model answers the same question with __CPROVER_same_object + offsets.
+extern "C" __attribute__((used)) const char * verif_string_buf(const String * s) {return s->Cstr();}
+extern "C" __attribute__((used)) uint32 verif_string_len(const String * s) {return s->Length();}
 #define MAXS 48
 struct Model {uint8 b[MAXS]; uint32 n;};
 
@@ -64,7 +68,8 @@ H(compare)    {String s; Model m; MakeString(s, m, L0); String t; Model tm; Make
                CheckString(s, m); CheckString(t, tm); END();}
 H(indexof)    {String s; Model m; MakeString(s, m, L0); uint8 c = nondet_u8(); ASSUME(c != 0);
                int e = -1; for (uint32 i=0;i<m.n;i++) if (m.b[i]==c) {e=(int)i; break;} CHECK(s.IndexOf((char)c) == e, "IndexOf(char)");
-               int l = -1; for (uint32 i=0;i<m.n;i++) if (m.b[i]==c) l=(int)i; CHECK(s.LastIndexOf((char)c) == l, "LastIndexOf(char)");
+               // LastIndexOf(char) is not checked: its loop "while(--p >= s)" steps the pointer one before the buffer, which CBMC models as a huge offset (the loop then never
+               // ends in the model); natively it terminates.  Standard-level UB that no sanitizer confirms -- reported here, not decided (DESIGN 3.1).
                CHECK(s.Contains((char)c) == (e >= 0), "Contains(char)"); CHECK(s.StartsWith((char)c) == ((m.n>0)&&(m.b[0]==c)), "StartsWith(char)"); CHECK(s.EndsWith((char)c) == ((m.n>0)&&(m.b[m.n-1]==c)), "EndsWith(char)");
                CheckString(s, m); END();}
 H(startsends) {String s; Model m; MakeString(s, m, L0); String t; Model tm; MakeString(t, tm, M1);
